@@ -136,12 +136,17 @@ CLAIMED = {
          "C13_fault_reported / C13_reconnect_never_lost / C13_reconnect_progress / C13_retry_delay / C13_retry_continues / C13_backoff / "
          "C13_connect_succeeds / C13_connect_finishes / C13_single_receive_path / C13_never_monopolises hold for every client kind, every reachable "
          "state and every run of any length of ClientLTS.v with the three repairs on; the defects F-eofspin and F-connect-lost are runs of the "
-         "same model with the repair off (C13_eofspin_as_it_was, C13_connect_lost_as_it_was). PARTIAL: inevitability of 'eventually CONNECTED' needs "
-         "scheduler fairness and an accepting gateway and is not proved; proved instead: a reconnect is always pending after a fault "
-         "(C13_reconnect_never_lost), its machinery is never stuck (C13_reconnect_progress), and from every such non-busy state a run of at "
-         "most 5 connect-machinery steps + 'attempt accepted' reaches CONNECTED with a fresh receive task (C13_recovery_possible); delays in "
+         "same model with the repair off (C13_eofspin_as_it_was, C13_connect_lost_as_it_was). Inevitability under a quiet environment is PROVED (ClientLTSLive.v): an explicit "
+         "measure lmu strictly decreases on every step of the client's own machinery with an accepting gateway (C13_recovery_terminates); a "
+         "reachable non-CLOSED state with no such step enabled is at rest CONNECTED with a live receive task, or was never asked to connect "
+         "(C13_no_deadlock_before_recovery); hence every maximal quiet run after a fault has at most lmu x steps and ends recovered "
+         "(C13_recovery_inevitable, C13_recovery_inevitable_after_fault). Remaining assumption: an enabled step is eventually taken and the "
+         "peer/application stay quiet meanwhile. 'Own step' carries a realism side condition (a suspended read resumes only when it can make "
+         "progress; a read enqueues at most one message per consumed byte): without it the model, an over-approximation, has a self-loop "
+         "(C13_quiet_only_refuted_spurious_wakeup). Also: a reconnect is always pending after a fault (C13_reconnect_never_lost), its machinery "
+         "is never stuck (C13_reconnect_progress), C13_recovery_possible (<= 5 steps); delays in "
          "[0.5 s, 10 s] growing and capped; bursts without yielding bounded by buffered bytes / queued messages. Delivery after recovery is "
-         "C12 on the new reader.",
+         "C12 on the new reader (and the per-connection delivery rule of the session oracle).",
          "Trusted: Coq kernel + vm_compute; the hand model ClientLTS.v, tied by ~1200 (quick) / ~4400 (thorough) real sessions whose labelled "
          "traces with state snapshots the kernel accepts; which awaits suspend, FIFO ready queue, cancellation (CPython 3.12 asyncio) "
          "modelled not verified; tools/vloop.py (virtual-time loop, fake transports, block -> label); failing attempts raise 8 exception "
